@@ -21,12 +21,16 @@ func (s *Sim) buildFilter(spec *FilterSpec, rels []relPair) Filterer {
 	} else {
 		f = NewFilterer(s.W, spec.Ad)
 	}
+	if spec.Excl && spec.XFirst {
+		// the builder calls in the other order: an exclusive filter includes the components set via With
+		f.Exclusive()
+	}
 	if len(spec.With) > 0 {
 		f.With(spec.With)
 	}
-	if spec.Excl {
+	if spec.Excl && !spec.XFirst {
 		f.Exclusive()
-	} else if len(spec.Without) > 0 {
+	} else if !spec.Excl && len(spec.Without) > 0 {
 		f.Without(spec.Without)
 	}
 	if len(rels) > 0 {
